@@ -907,6 +907,13 @@ def stream_e2e_cde(seed, tier, workdir, stream):
                 c["fields"]["room_factor"] = r.choice([2, 2.5, 3])
                 c["fields"]["room_offset"] = r.choice([0, 0, 1])
             rooms = [r.choice([6, 8, 10, 12]) for _ in range(len(doc["courses"]))]
+        if i % 8 == 1:
+            # namesakes: people sharing one printed name (all of them, or pairs) — names identify nobody
+            regs = list(doc["registrations"].values())
+            for reg in regs:
+                if isinstance(reg.get("persona"), dict) and (i % 16 == 1 or r.random() < 0.5):
+                    reg["persona"]["given_names"] = regs[0]["persona"]["given_names"]
+                    reg["persona"]["family_name"] = regs[0]["persona"]["family_name"]
         twin = None
         if i % 3 == 0:
             twin, edits = irrelevant_edits(r, doc, opts, info, names=True)
